@@ -206,7 +206,7 @@ def run_pp_case(case):
             sched.point(lambda: len(R.transfers) > ti and
                         R.transfers[ti]['future'] is not None and
                         (sched.step >= c['at'] or all_done()),
-                        'canceller.wait')
+                        'canceller.wait', urgent=True)
             f = R.transfers[ti]['future']
             c['done_before'] = raw_done(R.transfers[ti])
             c['step'] = sched.step
@@ -288,7 +288,7 @@ def run_pp_case(case):
             at = end.get('at')
             if at is not None:
                 sched.point(lambda: sched.step >= at or all_done(),
-                            'user.wait_step')
+                            'user.wait_step', urgent=True)
 
         try:
             if how.startswith('with'):
